@@ -1,7 +1,7 @@
 (* C03 - normal ordering yields the canonical form of the same operator. *)
 From Coq Require Import ZArith NArith List Bool.
 From OFV Require Import Base.Cplx Base.Lin Sem.PauliSem Sem.FermiSem Sem.BoseSem Model.SymbolicOp Model.LadderOp
-  Model.NormalOrder Thm.C03.CAR Thm.C03.NormalOrderB Check.OpEquiv.
+  Model.NormalOrder Thm.C01.SymHom Thm.C03.CAR Thm.C03.NormalOrderB Thm.C03.NormalOrderF Check.OpEquiv.
 Import ListNotations.
 
 (* the rewrite rules normal ordering applies are identities of the Fock-space semantics,
@@ -17,6 +17,25 @@ Theorem C03_car_contract : forall i s k,
   Cadd (coeff N.eqb k (two (i, false) (i, true) s)) (coeff N.eqb k (two (i, true) (i, false) s)) = coeff N.eqb k [(C1, s)].
 Proof. exact car_contract. Qed.
 Print Assumptions C03_car_contract.
+
+(* [F] unbounded: the model of normal_ordered_ladder_term for fermions (the transcribed double loop over the in-place list, the
+   recursive call on the contracted word, explicit fuel) with exact accumulation denotes, for EVERY word - any length, repeated
+   modes, arbitrary interleaving - and every coefficient, the operator it was given; hence so does normal_ordered on every operator.
+   (The code's `+=` additionally prunes coefficients below EQ_TOLERANCE; the correspondence check compares the implementation with
+   both accumulation modes on every generated input.) *)
+Theorem C03_step_preserves_denotation : forall small, (forall a b, iadd_exact lfactor lfeqb small a b = true) ->
+  forall rec st j, 1 <= j -> j < length (nterm st) ->
+  (forall t' c' s, length t' + 2 = length (nterm st) -> leq N.eqb (fden (rec t' c') s) (lscale c' (fapply_word t' s))) ->
+  length (nterm (step_j small true rec st j)) = length (nterm st) /\
+  forall s, leq N.eqb (stden (step_j small true rec st j) s) (stden st s).
+Proof. exact step_sound. Qed.
+Print Assumptions C03_step_preserves_denotation.
+Theorem C03_normal_ordered_term_sound : forall t c s, leq N.eqb (fden (no_fermi_term0 t c) s) (lscale c (fapply_word t s)).
+Proof. exact no_fermi_term0_sound. Qed.
+Print Assumptions C03_normal_ordered_term_sound.
+Theorem C03_normal_ordered_sound : forall op s, leq N.eqb (fden (normal_ordered_fermi0 op) s) (fden op s).
+Proof. exact normal_ordered_fermi0_sound. Qed.
+Print Assumptions C03_normal_ordered_sound.
 
 (* [B] complete bounded domains (stated): the model of normal_ordered_ladder_term / _quad_term
    preserves the denotation, produces normal-ordered terms, and is idempotent *)
